@@ -7,6 +7,8 @@ package main
 // obligation at each of their call sites.
 
 import (
+	"fmt"
+	"os"
 	"go/types"
 	"sort"
 	"strings"
@@ -302,15 +304,54 @@ func (c *Ctx) checkGuard(rule string, g guardSpec) {
 				continue
 			}
 			if len(guardedAccessesDeep(fn, guarded)) == 0 {
-				continue
+				// no guarded access of its own: still a candidate if it calls a helper that requires the lock
+				// (a documented one, or one inferred in an earlier round)
+				callsHelper := false
+				for _, f := range append([]*ssa.Function{fn}, Closures(fn)...) {
+					eachInstr(f, func(in ssa.Instruction) {
+						ci, ok := in.(ssa.CallInstruction)
+						if !ok {
+							return
+						}
+						cal := ci.Common().StaticCallee()
+						if cal == nil {
+							return
+						}
+						if inferred[cal] != lockNone {
+							callsHelper = true
+						}
+						if cal.Signature.Recv() != nil && helper[cal.Name()] && types.Identical(derefT(cal.Signature.Recv().Type()), n) {
+							callsHelper = true
+						}
+					})
+				}
+				if !callsHelper {
+					continue
+				}
 			}
-			refs := p.refsTo(fn)
+			refs := p.refsToInPlace(fn)
 			if len(refs) == 0 {
 				continue
 			}
 			entry := lockW
 			for _, r := range refs {
-				if r.Kind != "call" {
+				if uses := synchronousUses(r.Instr); r.Kind == "value" && len(uses) > 0 {
+					// a method value handed to a function that only calls it: it runs during that call
+					mode := lockW
+					for _, u := range uses {
+						m := lockNone
+						if lf := locks[r.In]; lf != nil {
+							m = lf[u][lockID]
+						}
+						if m < mode {
+							mode = m
+						}
+					}
+					if mode < entry {
+						entry = mode
+					}
+					continue
+				} else if r.Kind != "call" {
 					entry = lockNone
 					break
 				}
@@ -333,6 +374,16 @@ func (c *Ctx) checkGuard(rule string, g guardSpec) {
 				}
 				if mode < entry {
 					entry = mode
+				}
+			}
+			if os.Getenv("HSVERIF_DEBUG") != "" {
+				fmt.Println("DEBUG inferred", shortName(fn), "entry", entry, "refs", len(refs))
+				for _, r := range refs {
+					m := lockNone
+					if lf := locks[r.In]; lf != nil {
+						m = lf[r.Instr][lockID]
+					}
+					fmt.Println("   ref", shortName(r.In), r.Kind, m, locks[r.In] != nil)
 				}
 			}
 			if entry != inferred[fn] {
@@ -540,4 +591,68 @@ func returnsAfter(in ssa.Instruction) []*ssa.Return {
 	}
 	walk(in.Block())
 	return out
+}
+
+
+// passedToSynchronousCaller: the instruction is a plain call of a module function with a body that
+// receives a function value (a method value or literal created for this call) as an argument and
+// does nothing with that parameter but call it: the function value runs during the call, with
+// whatever locks the caller holds.
+// synchronousUses: in creates a function value (MakeClosure) or is the call receiving one; the
+// result lists the calls during which the value runs, nil if any use is something else.
+func synchronousUses(in ssa.Instruction) []ssa.Instruction {
+	if mc, ok := in.(*ssa.MakeClosure); ok {
+		var out []ssa.Instruction
+		if refs := mc.Referrers(); refs != nil {
+			for _, r := range *refs {
+				if _, isDbg := r.(*ssa.DebugRef); isDbg {
+					continue
+				}
+				if !passedToSynchronousCaller(r) {
+					return nil
+				}
+				out = append(out, r)
+			}
+		}
+		return out
+	}
+	if passedToSynchronousCaller(in) {
+		return []ssa.Instruction{in}
+	}
+	return nil
+}
+
+func passedToSynchronousCaller(in ssa.Instruction) bool {
+	call, ok := in.(*ssa.Call)
+	if !ok {
+		return false
+	}
+	cal := call.Call.StaticCallee()
+	if cal == nil || cal.Blocks == nil || !inModule(funcPkgPath(cal)) {
+		return false
+	}
+	found := false
+	for j, a := range call.Call.Args {
+		if _, isMC := a.(*ssa.MakeClosure); !isMC {
+			continue
+		}
+		if j >= len(cal.Params) {
+			return false
+		}
+		refs := cal.Params[j].Referrers()
+		if refs == nil {
+			continue
+		}
+		for _, r := range *refs {
+			if _, isDbg := r.(*ssa.DebugRef); isDbg {
+				continue
+			}
+			c2, ok := r.(*ssa.Call)
+			if !ok || c2.Call.Value != ssa.Value(cal.Params[j]) {
+				return false
+			}
+		}
+		found = true
+	}
+	return found
 }
